@@ -1,0 +1,20 @@
+//go:build verif
+
+// Contracts for deductive verification (comment-only; read by /verif/govc, never compiled into the product).
+
+package sm
+
+//@ func (s State) X(other State) State
+//@   property C11
+//@   inline
+
+//@ ghost pure func validState(s State) bool = s >= UNKNOWN && s <= INVARIANT
+
+//@ lemma X_comm C11: forall a State, b State :: a.X(b) == b.X(a)
+//@ lemma X_assoc C11: forall a State, b State, c State :: a.X(b).X(c) == a.X(b.X(c))
+//@ lemma X_idem C11: forall a State :: a.X(a) == a
+//@ lemma X_identity C11: forall a State :: a.X(INVARIANT) == a && INVARIANT.X(a) == a
+//@ lemma X_error_absorbs C11: forall a State :: a.X(ERROR) == ERROR && ERROR.X(a) == ERROR
+//@ lemma X_differing_healthy_mixed C11: forall a State, b State ::
+//@     a != b && a != ERROR && b != ERROR && a != INVARIANT && b != INVARIANT ==> a.X(b) == MIXED
+//@ lemma X_closed C11: forall a State, b State :: validState(a) && validState(b) ==> validState(a.X(b))
